@@ -3,7 +3,7 @@ CONSTANTS
   GatherMaxN = 3
   Shapes = {"gather"}
   MaxFaults = 3
-  Batches = 2
+  Batches = 1
   Mutants = {"none"}
   MutMaxN = 4
   MutShapes = {"scatter", "gather"}
